@@ -25,6 +25,7 @@ EXPLANATION = (
     ' (as built) sync provenance follows views of a single per-batch read; the mute may multiply the voltage traces inside the concatenation; the kept range may be held in a slice object built from is_first / is_last flags; one seek shared by all workers is evaluated for worker 0 and worker i.'
     " (D1 as built) the batch loop is modelled as a schedule (start, stride, bound) whether written as `while True` with a break or as `for first_s in range(start, stop, stride)`; the bound must be max_s - 2*TAPER with max_s = ns for the worker that the fan-out's own count designates as last; seeks are keyed by the file a handle was opened on."
     ' (D5) every free variable of the worker (symtable of the enclosing function) is bound by the enclosing function whenever the worker reads it: path condition of the read and of the launch entail the disjunction of the path conditions of the bindings; a resource held as `x = r if option else None` is looked into only under that option. (D6) the batch stride is positive: a constant for the default batch size, and for a caller-supplied nbatch established by an assert / raise guard that precedes the worker.'
+    ' (D1 first batch is real) a worker processes the batch at its start unconditionally, so for worker i > 0 the code must return early when first_s + 2*TAPER >= ns (the batch before it already reached the end): decided on normal forms of the guard, any spelling.'
     ' (D1 batch ownership) when worker i starts at batch P[i] of a partition vector built in the enclosing function, it must go on exactly while its next start is below stride * P[i + 1] (the last worker until a batch reaches the end).'
     ' (D1 start ownership) workers may own the batches that START in their chunk (n_batch = ceil(i * CHUNK_SIZE / stride), while first_s < max_s), provided a grid point is processed only when the batch before it did not reach the end (first_s == 0 or first_s + 2 * TAPER < ns).'
 )
